@@ -10,7 +10,7 @@ Helper lemmas and the two tactics used to prove that the interpreter `PQ.Src.exe
 * `src_eval [extra]` : symbolic evaluation — `simp only` with the equations of the interpreter, the monad laws of
   `Except`, register look-ups, and the `extra` lemmas (the generated terms to unfold, the model functions to unfold,
   call lemmas of callees already tied).
-  A `while` is NOT unfolded (the equations `es1 … es29` = `Src.execStep.eq_1 … eq_29` are listed without `eq_9`, the one for `.while`;
+  A `while` is NOT unfolded (the equations `es1 … es34` = `Src.execStep.eq_1 … eq_34` are listed without `eq_9`, the one for `.while`;
   should the constructor order in `PQ/Model/Src.lean` change, adapt the list): loops are handled by per-loop lemmas.
 * `src_close` : closes an equation between two `do` blocks in `R` that perform the same reads in the same order:
   congruence under binds, case splits on the conditions, `simp_all` at the leaves.
@@ -362,14 +362,19 @@ theorem es26 [LT P] [DecidableLT P] : type_of% (@Src.execStep.eq_26 P _ _) := @S
 theorem es27 [LT P] [DecidableLT P] : type_of% (@Src.execStep.eq_27 P _ _) := @Src.execStep.eq_27 P _ _
 theorem es28 [LT P] [DecidableLT P] : type_of% (@Src.execStep.eq_28 P _ _) := @Src.execStep.eq_28 P _ _
 theorem es29 [LT P] [DecidableLT P] : type_of% (@Src.execStep.eq_29 P _ _) := @Src.execStep.eq_29 P _ _
+theorem es30 [LT P] [DecidableLT P] : type_of% (@Src.execStep.eq_30 P _ _) := @Src.execStep.eq_30 P _ _
+theorem es31 [LT P] [DecidableLT P] : type_of% (@Src.execStep.eq_31 P _ _) := @Src.execStep.eq_31 P _ _
+theorem es32 [LT P] [DecidableLT P] : type_of% (@Src.execStep.eq_32 P _ _) := @Src.execStep.eq_32 P _ _
+theorem es33 [LT P] [DecidableLT P] : type_of% (@Src.execStep.eq_33 P _ _) := @Src.execStep.eq_33 P _ _
+theorem es34 [LT P] [DecidableLT P] : type_of% (@Src.execStep.eq_34 P _ _) := @Src.execStep.eq_34 P _ _
 
 /-- symbolic evaluation of the interpreter -/
 syntax "src_eval" (" [" Lean.Parser.Tactic.simpLemma,* "]")? : tactic
 macro_rules
   | `(tactic| src_eval) => `(tactic| src_eval [])
   | `(tactic| src_eval [$ls,*]) => `(tactic|
-      simp only [PQ.SrcEquiv.es1, PQ.SrcEquiv.es2, PQ.SrcEquiv.es3, PQ.SrcEquiv.es4, PQ.SrcEquiv.es5, PQ.SrcEquiv.es6, PQ.SrcEquiv.es7, PQ.SrcEquiv.es8, PQ.SrcEquiv.es10, PQ.SrcEquiv.es11, PQ.SrcEquiv.es12, PQ.SrcEquiv.es13, PQ.SrcEquiv.es14, PQ.SrcEquiv.es15, PQ.SrcEquiv.es16, PQ.SrcEquiv.es17, PQ.SrcEquiv.es18, PQ.SrcEquiv.es19, PQ.SrcEquiv.es20, PQ.SrcEquiv.es21, PQ.SrcEquiv.es22, PQ.SrcEquiv.es23, PQ.SrcEquiv.es24, PQ.SrcEquiv.es25, PQ.SrcEquiv.es26, PQ.SrcEquiv.es27, PQ.SrcEquiv.es28, PQ.SrcEquiv.es29, Src.evalN, Src.evalNs, Src.evalP, Src.evalPs,
-        Src.evalB, Src.bindN, Src.bindP, Src.upd, Src.St.setS, Src.St.setN, Src.St.setP,
+      simp only [PQ.SrcEquiv.es1, PQ.SrcEquiv.es2, PQ.SrcEquiv.es3, PQ.SrcEquiv.es4, PQ.SrcEquiv.es5, PQ.SrcEquiv.es6, PQ.SrcEquiv.es7, PQ.SrcEquiv.es8, PQ.SrcEquiv.es10, PQ.SrcEquiv.es11, PQ.SrcEquiv.es12, PQ.SrcEquiv.es13, PQ.SrcEquiv.es14, PQ.SrcEquiv.es15, PQ.SrcEquiv.es16, PQ.SrcEquiv.es17, PQ.SrcEquiv.es18, PQ.SrcEquiv.es19, PQ.SrcEquiv.es20, PQ.SrcEquiv.es21, PQ.SrcEquiv.es22, PQ.SrcEquiv.es23, PQ.SrcEquiv.es24, PQ.SrcEquiv.es25, PQ.SrcEquiv.es26, PQ.SrcEquiv.es27, PQ.SrcEquiv.es28, PQ.SrcEquiv.es29, PQ.SrcEquiv.es30, PQ.SrcEquiv.es31, PQ.SrcEquiv.es32, PQ.SrcEquiv.es33, PQ.SrcEquiv.es34, Src.evalN, Src.evalNs, Src.evalP, Src.evalPs,
+        Src.evalB, Src.bindN, Src.bindP, Src.upd, Src.St.setS, Src.St.setN, Src.St.setP, Src.St.setV,
         bind_assoc, pure_bind, map_eq_pure_bind, Function.comp, PQ.SrcEquiv.ite_bind, PQ.SrcEquiv.error_bind,
         PQ.SrcEquiv.ok_bind, PQ.SrcEquiv.fin_normal, PQ.SrcEquiv.fin_ret, decide_eq_true_eq,
         PQ.SrcEquiv.prioAt_tick, PQ.SrcEquiv.size_tick, PQ.SrcEquiv.heap_tick, PQ.SrcEquiv.qp_tick, PQ.SrcEquiv.map_tick,
